@@ -709,8 +709,11 @@ def finish(report, program, explanation, not_decided, trusted=None,
             ("  (floor %d)" % report.floors[rule])
             if rule in report.floors else ""))
     for n, fd, k in report.selftests:
-        word = ("fired" if fd else "SILENT") if k == "breaking" else \
-            ("quiet" if fd else "FALSE-ALARM")
+        if k == "metamorphic":
+            word = "same verdict" if fd else "DIFFERENT VERDICT"
+        else:
+            word = ("fired" if fd else "SILENT") if k == "breaking" else \
+                ("quiet" if fd else "FALSE-ALARM")
         print("   selftest %-40s %s" % (n, word))
     for rules, why in report.undecided_rules:
         print("UNDECIDED property=%s rules=%s the code is outside what "
